@@ -65,6 +65,7 @@ func init() {
 
 		c09FreeText(c)
 		c09MarshalPure(c)
+		noPanicFor(c, "C09")
 	}
 }
 
